@@ -66,6 +66,12 @@ pub fn tdur_alphabet(tier: Tier) -> Vec<TDur> {
     for i in 0..6 {
         let max = (0.4 * DUR_LIMIT_NS as f64 / UNIT_NS[i + 1] as f64).floor();
         let mut a = vec![0.0, 1.0, wraps[i] - 1.0, wraps[i], 2147483649.0, max];
+        if i == 0 || i == 5 {
+            // the width of the instant range and twice that (min instant + 2*range/2 = max instant)
+            a.push((MAX_INSTANT_NS / UNIT_NS[i + 1]) as f64);
+            a.push((MAX_INSTANT_NS / UNIT_NS[i + 1]) as f64 + 1.0);
+            a.push((2 * MAX_INSTANT_NS / UNIT_NS[i + 1]) as f64);
+        }
         if tier == Tier::Thorough {
             a.push(9007199254740993.0_f64.min(max)); // 2^53 + 1 is not a double; this is 2^53 (or max)
             a.push(wraps[i] + 1.0);
